@@ -456,7 +456,7 @@ class ThreadTrace(object):
     Also detects overlap: a callback of agent A entered while another thread is inside a
     callback of A.  Everything is done by wrapping methods from outside (no source hook)."""
 
-    CB_KINDS = ("start", "on_message", "pause", "periodic", "disc_cb")
+    CB_KINDS = ("start", "on_message", "pause", "periodic", "disc_cb", "handler")
 
     def __init__(self, jitter=None):
         self.items = []
@@ -620,8 +620,23 @@ class ThreadTrace(object):
                           ("start_replication", "orch_start_replication"), ("run", "orch_run"),
                           ("stop_agents", "orch_stop_agents"), ("stop", "orch_stop"),
                           ("_mgt_method", "orch_mgt_method"), ("_on_timeout", "orch_on_timeout"),
-                          ("_process_event", "orch_process_event")):
+                          ("_process_event", "orch_process_event"),
+                          ("end_metrics", "orch_read"), ("current_global_cost", "orch_read"),
+                          ("current_solution", "orch_read"), ("replication_metrics", "orch_read"),
+                          ("wait_ready", "orch_wait_ready")):
             patch_api(O, meth, api, lambda s: "orchestrator")
+        # message-handler methods of the management computations: a direct call from another
+        # thread (instead of a posted message) must show up as a callback on that thread
+        for cls, owner_of in ((om.AgentsMgt, lambda c: "orchestrator"),
+                              (oa.OrchestrationComputation, lambda c: c.agent.name)):
+            for name, fn in list(cls.__dict__.items()):
+                if not callable(fn) or not (name.startswith("_orchestrator_") or name.startswith("_on_")):
+                    continue
+
+                def h(selfc, *a, _orig=fn, _owner=owner_of, **k):
+                    return tt.callback(_owner(selfc), selfc.name, "handler",
+                                       lambda: _orig(selfc, *a, **k))
+                setattr(cls, name, h)
         return self
 
     # -- result
